@@ -360,12 +360,17 @@ func (s *BooleanSearcher) Advance(ctx *search.SearchContext, ID index.IndexInter
 		}
 
 		if s.shouldSearcher != nil {
-			if s.currShould != nil {
-				ctx.DocumentMatchPool.Put(s.currShould)
-			}
-			s.currShould, err = s.shouldSearcher.Advance(ctx, ID)
-			if err != nil {
-				return nil, err
+			// as for mustNotSearcher below: only move the should cursor when it
+			// is trailing the requested ID, otherwise a match that was already
+			// fetched (and is at or ahead of the ID) would be skipped.
+			if s.currShould == nil || s.currShould.IndexInternalID.Compare(ID) < 0 {
+				if s.currShould != nil {
+					ctx.DocumentMatchPool.Put(s.currShould)
+				}
+				s.currShould, err = s.shouldSearcher.Advance(ctx, ID)
+				if err != nil {
+					return nil, err
+				}
 			}
 		}
 
